@@ -212,7 +212,7 @@ def matrix_cases(tier, seed, stores=("local",)):
                 d.update({"position": pos, "import_form": form, "layout": layout})
                 emit("import:%s/%s@%s" % (form, layout, pos), p0, p1, d)
     # D7: higher-order reference, lambda, nested def, class/method
-    for variant in ("ref", "lambda_call", "nested_def", "nested_def_var", "method_const", "method_var", "method_callee", "cls_attr", "cls_attr_other_module", "indent"):
+    for variant in ("ref", "lambda_call", "nested_def", "nested_def_var", "nested_def_helper", "method_const", "method_var", "method_callee", "cls_attr", "cls_attr_other_module", "indent"):
         for pos in ("A", "main", "C"):
             p0 = base_program("pm%d" % k)
             k += 1
@@ -237,6 +237,13 @@ def matrix_cases(tier, seed, stores=("local",)):
                 p1 = gen.clone(p0)
                 p1["fns"][ids[pos]]["stmts"][-1]["const"] = 51
                 d = {"kind": "set_const", "fn": f["name"], "site": ["T", f["name"]]}
+            elif variant == "nested_def_helper":
+                # a helper that only a function defined inside the body calls
+                tgt = gen.add_fn(p0, mod, "inner_target", const=45)
+                p0["order"][mod].remove(("fn", tgt))
+                p0["order"][mod].insert(0, ("fn", tgt))
+                f["stmts"].append(gen.s_nested_def(62, None, tgt))
+                p1, d = gen.e_set_const(p0, tgt)
             elif variant in ("nested_def", "nested_def_var"):
                 vid = None
                 if variant == "nested_def_var":
@@ -503,6 +510,10 @@ def random_program(rng, pkg, nfn=None, with_loads=False):
             f["alias"] = True  # same-module references go through a module-level alias of the function
         if rng.random() < 0.15:
             f["stmts"].append(gen.s_block(300 + i, inside=rng.random() < 0.5))
+        if rng.random() < 0.12:
+            # a function defined inside the body that calls a plain leaf helper (or nothing)
+            lf = [g for g in fids if not p["fns"][g]["params"] and p["fns"][g]["data_path"] is None and not _has_keep_site(p, g) and g not in kept_callees and mods.index(p["fns"][g]["module"]) <= mi]
+            f["stmts"].append(gen.s_nested_def(400 + i, None, rng.choice(lf) if lf and rng.random() < 0.7 else None))
         if rng.random() < 0.15:
             # a class whose method is used by this function (optionally reading a variable / calling a leaf function)
             leafs = [g for g in fids if not p["fns"][g]["params"] and p["fns"][g]["data_path"] is None and not _has_keep_site(p, g) and g not in kept_callees and mods.index(p["fns"][g]["module"]) <= mi]
@@ -566,7 +577,7 @@ def _has_keep_site(p, g):
 def _called_plain(p, g):
     for f in p["fns"].values():
         for s in f["stmts"]:
-            if s["k"] == "call" and s["fn"] == g:
+            if s["k"] in ("call", "nested_def") and s.get("fn") == g:
                 return True
             if any(a["k"] == "callarg" and a["fn"] == g for a in s.get("args", [])):
                 return True
